@@ -1,12 +1,17 @@
 import PbVerif.Model.Proto
 import PbVerif.Model.Poly
+import PbVerif.Model.Poly2d
 namespace PbVerif.Drv.C08
-open PbVerif PbVerif.Proto PbVerif.Poly
+open PbVerif PbVerif.Proto PbVerif.Poly PbVerif.Poly2d
 
 def parseMat? (s : String) : Option (List (List Rat)) :=
   if s = "-" then some [] else (s.splitOn ";").mapM (parseList? parseRat?)
 def showMat (m : List (List Rat)) : String :=
   if m.isEmpty then "-" else ";".intercalate (m.map showRats)
+
+/-- `none` or a natural number -/
+def parseMc? (s : String) : Option (Option Nat) :=
+  if s = "none" then some none else s.toNat?.map some
 
 def handle : List String → Option String
   | ["c08.mapparms", o0, o1, n0, n1] => do
@@ -42,6 +47,21 @@ def handle : List String → Option String
   | ["c08.normalt", k, ts, ws, rs] => do
       let r := normalResidual (← parseList? parseRat? ts) (← parseList? parseRat? ws) (← parseList? parseRat? rs) (← k.toNat?)
       some (";".intercalate (r.map fun p => s!"{showRat p.1},{showRat p.2}"))
+  | ["c08.keptcols", a, b, mc] => do
+      -- one character per column of the flattened Vandermonde matrix: 1 = kept, 0 = set to zero (the transcribed loop)
+      some (showBits (keptCols (← a.toNat?) (← b.toNat?) (← parseMc? mc)))
+  | ["c08.allowed", a, b, mc] => do
+      -- the documented monomial set as an (a+1) x (b+1) bitmap, rows separated by ';'
+      some (";".intercalate ((allowedRows (← a.toNat?) (← b.toNat?) (← parseMc? mc)).map showBits))
+  | ["c08.maskedrow", a, b, mc, x, z, coef] => do
+      -- a row of the zeroed Vandermonde matrix, its product with coef, and polyval2d of the masked coefficient matrix
+      let a ← a.toNat?
+      let b ← b.toNat?
+      let mc ← parseMc? mc
+      let x ← parseRat? x
+      let z ← parseRat? z
+      let coef ← parseList? parseRat? coef
+      some s!"{showRats (vanderRowMasked a b mc x z)} {showRat (dot (vanderRowMasked a b mc x z) coef)} {showRat (evalPoly2 (maskCoef mc (reshapeCoef a b coef)) x z)}"
   | _ => none
 
 end PbVerif.Drv.C08
